@@ -28,10 +28,32 @@ import (
 //   collide   (C03)  behaviour-changing edits, decided by NATIVE EXECUTION -> fingerprints differ
 //   diffsound (C04)  the same pairs through cli.ComputeDiff -> never "preserved"; copy -> preserved
 
+func selfExe() string {
+	p, err := os.Executable()
+	if err != nil {
+		return os.Args[0]
+	}
+	return p
+}
+
+// fp-child <file>: fingerprint one file in a fresh process and print the triples
+func fpChild(args []string) {
+	src, err := os.ReadFile(args[0])
+	if err != nil {
+		os.Exit(3)
+	}
+	res, err := diff.FingerprintSource(args[0], string(src), ir.DefaultLiteralPolicy)
+	if err != nil {
+		os.Exit(4)
+	}
+	os.Stdout.WriteString(triples(res))
+}
+
 func init() {
 	register("fpdet", suiteFpDet)
 	register("refactor", suiteRefactor)
 	register("collide", suiteCollide)
+	childModes["fp-child"] = fpChild
 }
 
 type fpMap map[string]diff.FingerprintResult
@@ -78,7 +100,7 @@ func parallel(n, width int, f func(i int)) {
 // ---------------------------------------------------------------- C01
 
 func suiteFpDet(c *Ctx) error {
-	c.Res.Rule = "generated programs (5 exec + 6 raw-family functions each): the same source is fingerprinted (a) twice in a row, (b) after fingerprinting unrelated programs (pooled canonicaliser reuse), (c) from 12 goroutines at once, (d) from a copy of the module in another directory, (e) under GOMAXPROCS 1/2/16 in child processes (thorough); all (name, fingerprint, IR) triples must be byte-identical; non-trivial = program has >= 1 loop and >= 1 multi-branch function; distinct by source"
+	c.Res.Rule = "generated programs (5 exec + 6 raw-family functions each): the same source is fingerprinted (a) twice in a row, (b) after fingerprinting unrelated programs (pooled canonicaliser reuse), (c) from 12 goroutines at once, (d) from a copy of the module in another directory, (e) in fresh child processes at GOMAXPROCS 1 and 16 (thorough: 1, 2, 16); all (name, fingerprint, IR) triples must be byte-identical; non-trivial = program has >= 1 loop and >= 1 multi-branch function; distinct by source"
 	n := c.N
 	if n == 0 {
 		n = 6
@@ -137,6 +159,21 @@ func suiteFpDet(c *Ctx) error {
 			fmt.Fprintf(&sb, "%s|%s|%s\n", rr.FunctionName, rr.Fingerprint, rr.CanonicalIR)
 		}
 		check("other-directory", sb.String())
+		// other processes, GOMAXPROCS 1 / 2 / 16 (fresh runtime, fresh pool, fresh map seeds)
+		procs := []int{1, 16}
+		if c.Tier == "thorough" {
+			procs = []int{1, 2, 16}
+		}
+		for _, gp := range procs {
+			cmd := exec.Command(selfExe(), "fp-child", f0)
+			cmd.Env = append(os.Environ(), fmt.Sprintf("GOMAXPROCS=%d", gp))
+			out, err := cmd.Output()
+			if err != nil {
+				c.Skip("fp_child_failed")
+				continue
+			}
+			check(fmt.Sprintf("other-process-gomaxprocs-%d", gp), string(out))
+		}
 		if i == 0 {
 			c.Sample(map[string]interface{}{"functions": len(ref), "modes": []string{"repeat", "after-unrelated", "concurrent", "other-directory"}})
 		}
